@@ -70,10 +70,37 @@ func genHandleGet(root *pkgSrc) {
 		walk(fd.Body, false)
 		identity = waitPos != 0 && deletes == guarded // no unguarded delete on the exit path (zero deletes = nothing evicted)
 	}
+	// closed mark: the exit path sets conn.closed under conn.writeLock after the wait, and both writers check it after
+	// taking conn.writeLock
+	closedMark := false
+	if fd, _ := root.funcDecl("httpServerHandler.handleGet"); fd != nil {
+		src := root.text(fd)
+		if i := strings.Index(src, "<-connCtx.Done()"); i >= 0 {
+			tail := src[i:]
+			l := strings.Index(tail, "conn.writeLock.Lock()")
+			m := strings.Index(tail, "conn.closed = true")
+			u := strings.Index(tail, "conn.writeLock.Unlock()")
+			closedMark = l >= 0 && m > l && u > m
+		}
+	}
+	for _, fn := range []string{"httpServerHandler.sendNotificationToGetSSE", "httpServerHandler.SendRequest"} {
+		fd, _ := root.funcDecl(fn)
+		if fd == nil {
+			closedMark = false
+			continue
+		}
+		src := root.text(fd)
+		l := strings.Index(src, "conn.writeLock.Lock()")
+		c := strings.Index(src, "if conn.closed")
+		w := strings.Index(src, "conn.sseResponder.send")
+		if !(l >= 0 && c > l && w > c) {
+			closedMark = false
+		}
+	}
 	var b strings.Builder
 	b.WriteString(header)
 	b.WriteString("import Mcp.Model.Streams\nnamespace Mcp.Gen\n")
-	fmt.Fprintf(&b, "/-- `handleGet`: (headers flushed before the table store, exit path removes the entry only if it is its own). -/\ndef handleGetFacts : Mcp.Streams.Facts := ⟨%s, %s⟩\n", leanBool(flushBeforeStore), leanBool(identity))
+	fmt.Fprintf(&b, "/-- `handleGet`: (headers flushed before the table store, exit path removes the entry only if it is its own, exit marks the connection closed for writers). -/\ndef handleGetFacts : Mcp.Streams.Facts := ⟨%s, %s, %s⟩\n", leanBool(flushBeforeStore), leanBool(identity), leanBool(closedMark))
 	b.WriteString("end Mcp.Gen\n")
 	writeIfChanged("HandleGet.lean", b.String())
 }
